@@ -560,7 +560,7 @@ func (s *SegmentBase) visitStoredFields(vdc *visitDocumentCtx, num uint64,
 
 		keepGoing := visitor("_id", byte('t'), idFieldVal, nil)
 		if !keepGoing {
-			visitDocumentCtxPool.Put(vdc)
+			// vdc belongs to the caller, which returns it to the pool
 			return nil
 		}
 
